@@ -666,9 +666,33 @@ func (crdtFamily) Gen(n int, seed int64, mode, tier string) []interface{} {
 			// replica 2 a shuffled stream with duplicates
 			clk := int64(100)
 			steps := 5 + rng.Intn(36)
+			if rng.Intn(2) == 0 {
+				// retained messages written by a peer whose clock runs ahead, already merged everywhere:
+				// the origin's own Set/Delete of those topics must still win (and be conveyed)
+				var ev jEvent
+				for _, t := range tops {
+					if rng.Intn(2) == 0 {
+						ev.Ret = append(ev.Ret, jRet{Pub: jPub{T: t, P: "fast-" + t, R: true}, LA: clk + int64(20+rng.Intn(200))})
+					}
+				}
+				if len(ev.Ret) > 0 {
+					for nd := 0; nd < 3; nd++ {
+						e := ev
+						ops = append(ops, crdtOp{Op: "inject", N: nd, Ev: &e})
+					}
+				}
+			}
+			sameTick := rng.Intn(3) == 0
+			var prev crdtOp
 			for j := 0; j < steps; j++ {
 				clk += int64(1 + rng.Intn(5))
 				o := randLocal(0, clk, created)
+				if sameTick && j > 0 && strings.HasPrefix(o.Op, "ret_") && strings.HasPrefix(prev.Op, "ret_") {
+					// a coarse clock: consecutive retained writes in the same tick
+					clk = prev.Clk
+					o.Clk = clk
+				}
+				prev = o
 				if o.Op == "sess_delete_peer" || o.Op == "sub_delete_peer" {
 					o.Peer = 1
 				}
